@@ -3,7 +3,7 @@
 (* A matrix is a record [row, col, d] with d \in [1..row -> [1..col -> Int]]; row and col are explicit so   *)
 (* that 0 x c and r x 0 matrices exist and are distinguished.  A vector is a function [1..n -> Int]        *)
 (* (a TLA+ sequence).  A tensor is a sequence of equally shaped matrices (the slices).                     *)
-EXTENDS Integers, Sequences
+EXTENDS Integers, Sequences, FiniteSets
 
 Mat(r, c, F(_, _)) == [row |-> r, col |-> c, d |-> [i \in 1..r |-> [j \in 1..c |-> F(i, j)]]]
 Vec(n, F(_)) == [i \in 1..n |-> F(i)]
@@ -34,4 +34,35 @@ RowSum(M, i) == SumF(M.d[i], M.col)
 ColSumSq(M, j) == LET x == Column(M, j) IN Dot(x, x, M.row)
 ColCross(M, i, j) == Dot(Column(M, i), Column(M, j), M.row)
 QuadForm(v, C) == Dot(v, MatVec(C, v), C.row)                                 \* v' C v
+
+(* ---- second batch (C11 extension): element-wise maps, order statistics, ranks, determinant, Kronecker product ---- *)
+AbsI(x) == IF x < 0 THEN -x ELSE x
+SgnI(x) == IF x < 0 THEN -1 ELSE IF x > 0 THEN 1 ELSE 0
+VecAdd(a, b) == [i \in 1..Len(a) |-> a[i] + b[i]]
+VecSub(a, b) == [i \in 1..Len(a) |-> a[i] - b[i]]
+MapMat(M, F(_)) == Mat(M.row, M.col, LAMBDA i, j : F(M.d[i][j]))
+IdentityMat(n) == Mat(n, n, LAMBDA i, j : IF i = j THEN 1 ELSE 0)
+(* order statistics of the first n >= 1 entries of v: Kth(v, n, q) is the q-th smallest, counted with multiplicity *)
+Below(v, n, x) == Cardinality({i \in 1..n : v[i] < x})
+UpTo(v, n, x) == Cardinality({i \in 1..n : v[i] <= x})
+Kth(v, n, q) == CHOOSE x \in {v[i] : i \in 1..n} : Below(v, n, x) < q /\ q <= UpTo(v, n, x)
+VecMin(v, n) == CHOOSE x \in {v[i] : i \in 1..n} : \A i \in 1..n : x <= v[i]
+VecMax(v, n) == CHOOSE x \in {v[i] : i \in 1..n} : \A i \in 1..n : v[i] <= x
+(* twice the median (an integer): the middle order statistic, or the sum of the two middle ones *)
+Median2(v, n) == IF n % 2 = 1 THEN 2 * Kth(v, n, (n + 1) \div 2) ELSE Kth(v, n, n \div 2) + Kth(v, n, n \div 2 + 1)
+TieFree(v, n) == \A i, j \in 1..n : i # j => v[i] # v[j]
+RankIn(v, n, i) == Below(v, n, v[i]) + 1                     \* rank 1 = smallest; the textbook rank when v is tie-free
+Without(v, n, q) == [i \in 1..(n - 1) |-> IF i < q THEN v[i] ELSE v[i + 1]]      \* v with entry q removed
+(* determinant by cofactor expansion along the first row (small n only); d is the cell function of an n x n matrix *)
+MinorOf(d, n, col) == [i \in 1..(n - 1) |-> [j \in 1..(n - 1) |-> d[i + 1][IF j < col THEN j ELSE j + 1]]]
+RECURSIVE DetI(_, _)
+DetI(d, n) == IF n = 0 THEN 1 ELSE IF n = 1 THEN d[1][1]
+              ELSE SumF([col \in 1..n |-> (IF col % 2 = 1 THEN 1 ELSE -1) * d[1][col] * DetI(MinorOf(d, n, col), n - 1)], n)
+ReplaceCol(d, n, col, v) == [i \in 1..n |-> [j \in 1..n |-> IF j = col THEN v[i] ELSE d[i][j]]]
+(* Kronecker product of a column vector v (n x 1) with M (p x q): the (n p) x q block matrix whose i-th block is v[i] M *)
+Kron(v, M) == Mat(Len(v) * M.row, M.col, LAMBDA a, q : v[((a - 1) \div M.row) + 1] * M.d[((a - 1) % M.row) + 1][q])
+(* integer bracketing of irrational maps: floor(sqrt(x)), powers of ten *)
+IntSqrt(x) == CHOOSE s \in 0..(x + 1) : s * s <= x /\ x < (s + 1) * (s + 1)
+RECURSIVE Pow10(_)
+Pow10(p) == IF p = 0 THEN 1 ELSE 10 * Pow10(p - 1)
 ====
